@@ -383,7 +383,10 @@ const JMODEL: &str = r#"js {
   B { s:String nullable, i:Integer default 3, f:Float nullable, b:Boolean default true, k:Base64 default "YWJj", j:Json default "{}" }
   C { s:String default "d", i:Integer, f:Float, b:Boolean, k:Base64, j:Json }
   D { j:Json default "5", s:String nullable, f:Float default 2 }
+  P { name:String nullable, ka:js.A, kb:js.B, kc:js.C, kd:js.D, kas:[js.A], kbs:[js.B], kcs:[js.C], kds:[js.D] }
 }"#;
+/// the reference fields of js.P towards the entity of index `ei` of JModel::ents: (single reference, array)
+const NEST_FIELDS: [(&str, &str); 4] = [("ka", "kas"), ("kb", "kbs"), ("kc", "kcs"), ("kd", "kds")];
 fn jkind(v: &serde_json::Value) -> (String, i64) {
     match v {
         serde_json::Value::Null => ("JNull".into(), 0),
@@ -441,24 +444,46 @@ fn gen_lit(rng: &mut Rng, ty: &str) -> (String, String) {
         }
     }
 }
-fn case_json(rng: &mut Rng, jm: &JModel, directed: Option<usize>) -> Case {
+/// `nest`: None = the row is created by a root request; Some(array?) = the row is created NESTED under an UPDATE of an
+/// existing js.P row (`js.P { id:$p field:{..} }` / `field:[{..}]`): the peers judge the child row exactly as a root one.
+/// `omit`: directed nested shape: (entity index, field left out); every other field carries a valid literal.
+fn case_json(rng: &mut Rng, jm: &JModel, directed: Option<usize>, nest: Option<bool>, omit: Option<(usize, Option<&str>)>) -> Case {
     let conn = rusqlite::Connection::open_in_memory().unwrap();
     prepare_connection(&conn).unwrap();
+    // the parent exists beforehand (created first, stored)
+    let parent_id = cuid(1, 100);
+    if nest.is_some() {
+        let mut parent = Node { id: parent_id, room_id: None, cdate: BASE - 9, mdate: BASE - 5, _entity: jm.dm.get_entity("js.P").unwrap().short_name.clone(),
+            _json: Some("{}".to_string()), ..Default::default() };
+        parent.sign(&Ed25519SigningKey::create_from(&[41u8; 32])).unwrap();
+        Writeable::write(&mut parent, &conn).unwrap();
+    }
     // directed 3..8: an explicit null on a field that is not nullable but has a default, one per scalar type
     const NULL_DEFAULTED: [(usize, &str); 6] = [(1, "i"), (1, "b"), (1, "k"), (1, "j"), (0, "f"), (2, "s")];
-    let (ename, fs) = match directed { Some(0) | Some(1) => &jm.ents[0], Some(2) => &jm.ents[3], Some(d) => &jm.ents[NULL_DEFAULTED[d - 3].0],
-        _ => &jm.ents[[0, 1, 2, 0, 1, 2, 0, 1, 2, 3][rng.below(10) as usize]] };
+    let ent_idx = match (omit, directed) { (Some((ei, _)), _) => ei, (None, Some(0)) | (None, Some(1)) => 0, (None, Some(2)) => 3, (None, Some(d)) => NULL_DEFAULTED[d - 3].0,
+        (None, None) => [0, 1, 2, 0, 1, 2, 0, 1, 2, 3][rng.below(10) as usize] };
+    let (ename, fs) = &jm.ents[ent_idx];
     let valid_lit = |ty: &str| -> (&'static str, &'static str) { match ty {
         "TBool" => ("true", "LBool"), "TInt" => ("7", "LInt"), "TFloat" => ("2.5", "LFloat"), "TBase64" => ("\"YWJj\"", "(LStr true None)"),
         "TJson" => ("\"[1]\"", "(LStr false (Some JArr))"), _ => ("\"v\"", "(LStr false None)") } };
-    let mut text = format!("mutate {{ {} {{ ", ename);
+    let nest_field = nest.map(|arr| if arr { NEST_FIELDS[ent_idx].1 } else { NEST_FIELDS[ent_idx].0 });
+    let (mut text, closing) = match nest {
+        None => (format!("mutate {{ {} {{ ", ename), "} }"),
+        Some(false) => (format!("mutate {{ js.P {{ id:$p {}:{{ ", nest_field.unwrap()), "} } }"),
+        Some(true) => (format!("mutate {{ js.P {{ id:$p {}:[{{ ", nest_field.unwrap()), "}] } }"),
+    };
+    let new_params = || { let mut params = Parameters::default(); if nest.is_some() { params.add("p", uid_encode(&parent_id)).unwrap(); } params };
+    // the created row inside what execute returns
+    let created = |q: &MutationQuery| -> Node { let root = &q.mutate_entities[0];
+        let ie = match nest_field { None => root, Some(f) => &root.sub_nodes.get(f).unwrap()[0] };
+        ie.node_to_mutate.node.clone().unwrap() };
     // the same request with every explicit null replaced by a value of the field's type (to obtain, from the real
     // code, the content the request would produce if its nulls were let through)
     let mut text_forced = text.clone();
     let mut nulled: Vec<u64> = vec![];
     let mut lits = vec![];
     for f in fs {
-        let choice = match directed {
+        let choice = if let Some((_, om)) = omit { if om == Some(f.name.as_str()) { 0 } else { 12 } } else { match directed {
             Some(0) => if f.name == "s" { 10 } else if f.name == "i" || f.name == "j" { 1 } else { 0 },      // i: null, j: null (repaired: d170035, 8ac9d00)
             Some(1) => if f.name == "s" { 10 } else if f.name == "j" { 11 } else { 0 },     // j: "5"
             Some(2) => 0,                                                                   // everything omitted: Json default "5"
@@ -468,7 +493,7 @@ fn case_json(rng: &mut Rng, jm: &JModel, directed: Option<usize>) -> Case {
                 if c <= 2 { if !f.nullable && f.default.is_none() && rng.chance(9, 10) { 5 } else { 0 } }
                 else if c == 3 && rng.chance(1, 3) && (f.nullable || rng.chance(1, 4)) { 1 } else { 5 }
             }
-        };
+        } };
         match choice {
             0 => {}                                                                         // omitted
             1 => { text += &format!("{}: null ", f.name); lits.push(format!("({}, LNull)", gn(f.short)));
@@ -479,8 +504,8 @@ fn case_json(rng: &mut Rng, jm: &JModel, directed: Option<usize>) -> Case {
             _ => { let (t, c) = gen_lit(rng, f.ty); let t = format!("{}: {} ", f.name, t); text += &t; text_forced += &t; lits.push(format!("({}, {})", gn(f.short), c)); }
         }
     }
-    text += "} }";
-    text_forced += "} }";
+    text += closing;
+    text_forced += closing;
     let mut obs;
     let mut stage = "parse";
     match MutationParser::parse(&text, &jm.dm) {
@@ -490,10 +515,10 @@ fn case_json(rng: &mut Rng, jm: &JModel, directed: Option<usize>) -> Case {
             // it would have produced WITH those nulls
             if !nulled.is_empty() {
                 if let Ok(p) = MutationParser::parse(&text_forced, &jm.dm) {
-                    let mut params = Parameters::default();
+                    let mut params = new_params();
                     if let Ok(q) = MutationQuery::execute(&mut params, Arc::new(p), &conn) {
                         stage = "refused for its nulls";
-                        let node = q.mutate_entities[0].node_to_mutate.node.as_ref().unwrap();
+                        let node = &created(&q);
                         let mut v: serde_json::Value = serde_json::from_str(node._json.as_ref().unwrap()).unwrap();
                         for k in &nulled { v.as_object_mut().unwrap().insert(k.to_string(), serde_json::Value::Null); }
                         let ent = jm.dm.get_entity(ename).unwrap();
@@ -505,12 +530,12 @@ fn case_json(rng: &mut Rng, jm: &JModel, directed: Option<usize>) -> Case {
             }
         }
         Ok(p) => {
-            let mut params = Parameters::default();
+            let mut params = new_params();
             match MutationQuery::execute(&mut params, Arc::new(p), &conn) {
                 Err(_) => { obs = vec![0, -1]; stage = "execute"; }
                 Ok(q) => {
                     stage = "stored";
-                    let node = q.mutate_entities[0].node_to_mutate.node.as_ref().unwrap();
+                    let node = &created(&q);
                     let ent = jm.dm.get_entity(ename).unwrap();
                     let remote = validate_json_for_entity(ent, &node._json).is_ok();
                     obs = vec![1, remote as i64];
@@ -522,8 +547,8 @@ fn case_json(rng: &mut Rng, jm: &JModel, directed: Option<usize>) -> Case {
     }
     let fcoq: Vec<String> = fs.iter().map(|f| format!("{{| lf := {{| f_short := {}; f_type := {}; f_nullable := {}; f_default := {} |}}; lf_default := {} |}}",
         gn(f.short), f.ty, gb(f.nullable), gb(f.default.is_some()), gopt(&f.default))).collect();
-    Case { kind: "json".into(), coq: format!("CJson {} {}", glist(&fcoq), glist(&lits)), obs: obs.clone(),
-        meta: json!({"text": text, "stage": stage, "local": obs[0], "peer": obs[1]}) }
+    Case { kind: if nest.is_some() { "json-nested".into() } else { "json".into() }, coq: format!("CJson {} {}", glist(&fcoq), glist(&lits)), obs: obs.clone(),
+        meta: json!({"text": text, "stage": stage, "local": obs[0], "peer": obs[1], "nested_under_update": nest.map(|a| if a { "array" } else { "single" })}) }
 }
 
 // ------------------------------------------------------------------ main
@@ -545,7 +570,7 @@ async fn main() {
     let n = scale(900, 9000);
     let mut case: u64 = 0;
     // directed: the three listed disagreement classes, then agreement on the plain shapes
-    for d in 0..9 { let mut r = rng.fork(); let mut c = case_json(&mut r, &jm, Some(d)); c.kind = "directed".into(); out.push(c); }
+    for d in 0..9 { let mut r = rng.fork(); let mut c = case_json(&mut r, &jm, Some(d), None, None); c.kind = "directed".into(); out.push(c); }
     {
         // repaired by 25ca1a0 (was class 3): key 1 owns the row and has the own-rows right only; the reference it removes was written by key 2
         case += 1;
@@ -554,6 +579,20 @@ async fn main() {
         let obs = run_write(&rig, case, &w, 1, &h, 1, &[2, 1]).await;
         out.push(Case { kind: "directed".into(), coq: format!("CWrite {} {} {} {} {}", defs_coq(&w.defs), rig.dm.coq(), gn(1), head_coq(&h, &[2, 1]), gn(1)),
             obs, meta: json!({"what": "repaired (25ca1a0): removal of another author's reference inside a mutation is refused locally"}) });
+    }
+    // a NEW row created nested under an UPDATE of an existing parent (single reference and array field): complete, a required
+    // field left out (refused locally, as the peers would refuse the row), a defaulted field left out, a nullable one left out
+    {
+        // (entity index, omitted field): A{s required, i nullable, f default} B{s nullable, i default, j default "{}"} C{s default, i/f/b/k/j required}
+        let shapes: [(usize, Option<&str>); 13] = [(0, None), (0, Some("s")), (0, Some("f")), (0, Some("i")), (0, Some("j")),
+            (1, None), (1, Some("i")), (1, Some("s")), (1, Some("j")),
+            (2, None), (2, Some("i")), (2, Some("j")), (2, Some("s"))];
+        for arr in [false, true] { for sh in &shapes {
+            let mut r = rng.fork();
+            let mut c = case_json(&mut r, &jm, None, Some(arr), Some(*sh));
+            c.kind = "directed".into();
+            out.push(c);
+        } }
     }
     // update requests as text: each reference operation, with and without another field, by a caller without any right
     // in the room and by one with the all-rows right
@@ -636,7 +675,11 @@ async fn main() {
                         meta: json!({"local": obs[0], "peer": &obs[1..], "own_row": author == me, "own_ref": ea == me}), obs });
                 }
             }
-            _ => out.push(case_json(&mut r, &jm, None)),
+            _ => {
+                // one creation request in three is nested under an update of an existing parent row
+                let nest = match r.below(6) { 0 => Some(false), 1 => Some(true), _ => None };
+                out.push(case_json(&mut r, &jm, None, nest, None));
+            }
         }
     }
     out.finish();
